@@ -34,7 +34,7 @@ def main():
     checks = opts.get("--checks", pid).split(",")
     tier = opts.get("--tier", "quick")
     meta = json.load(open(f"{src}/meta.json"))
-    demo_dir = meta["demo_dir"].strip("/").replace("/tmp/seed/%s/" % pid, "")
+    demo_dir = re.sub(r"^/?tmp/seed\d*/%s/" % pid, "", meta["demo_dir"]).strip("/")
     demo_src = open(f"{src}/demo_test.go").read()
     tests = re.findall(r"^func (Test\w+)\(", demo_src, re.M)
     runpat = "^(" + "|".join(tests) + ")$"
